@@ -28,6 +28,7 @@ const W_CLAMPED: u64 = 16;
 const W_RESOLVED_AFTER_TIMEOUT: u64 = 32;
 const W_LATE_PONG: u64 = 64;
 const W_HUNG: u64 = 128;
+const W_PEER_PINGS: u64 = 256;
 
 const TOL: Duration = Duration::from_millis(3);
 
@@ -56,6 +57,9 @@ struct Scn {
     /// after the scripted rounds the peer hangs: it neither answers nor READS any more, while the local application
     /// has a burst of datagrams to send, so the transport's send side fills up (link capacity 2)
     hung_tail: bool,
+    /// the peer sends Pings of its own every interval (and keeps doing so after it has stopped answering ours):
+    /// only Pongs are evidence that our Pings get through
+    peer_pings: bool,
 }
 
 fn od(ms: u64) -> OptionalDuration {
@@ -133,12 +137,18 @@ async fn run_async(sc: &Scn, render: bool) -> RunOutput {
     let mut ended_at: Option<Duration> = None;
     let mut log: Vec<String> = Vec::new();
     let mut hit_horizon = false;
+    let mut next_peer_ping = t0 + i / 2;
     loop {
         if w.sim.steps > 20_000 {
             push_viol(&mut viol, "livelock", "step horizon".into());
             break;
         }
         let now = Instant::now();
+        if sc.peer_pings && enabled && now >= next_peer_ping && hung_at.is_none() {
+            raw.send_msg(Message::Ping);
+            next_peer_ping += i;
+            wit |= W_PEER_PINGS;
+        }
         // the peer takes in what reached it (a hung peer reads nothing any more)
         for m in if hung_at.is_some() { Vec::new() } else { raw.pump() } {
             if hung_at.is_some() {
@@ -182,7 +192,10 @@ async fn run_async(sc: &Scn, render: bool) -> RunOutput {
             if w.sim.all_done() {
                 break;
             }
-            let next = pong_due.iter().map(|(t, _)| *t).min().map_or(horizon, |t| t.min(horizon));
+            let mut next = pong_due.iter().map(|(t, _)| *t).min().map_or(horizon, |t| t.min(horizon));
+            if sc.peer_pings && enabled && hung_at.is_none() {
+                next = next.min(next_peer_ping);
+            }
             let _ = IdleWait { sim: &w.sim, sleep: Box::pin(tokio::time::sleep_until(next)) }.await;
             continue;
         }
@@ -347,7 +360,7 @@ pub fn run(args: &Args) -> Report {
                 if interval == 0 && (code != 0 || prompt_tail) {
                     continue;
                 }
-                let sc = Scn { interval, timeout, rounds: hist.clone(), prompt_tail, hung_tail: false };
+                let sc = Scn { interval, timeout, rounds: hist.clone(), prompt_tail, hung_tail: false, peer_pings: false };
                 let label = format!("I={interval}ms T={}ms history={hist:?} then {}", if timeout == 0 { "NONE".to_string() } else { timeout.to_string() }, if prompt_tail { "prompt" } else { "silent" });
                 cases.push(Case { try_unbounded: false, max_k: u32::MAX, label, exec: Box::new(move |r| exec(&sc, r)) });
             }
@@ -363,9 +376,27 @@ pub fn run(args: &Args) -> Report {
             let total = 2usize.pow(len as u32);
             for code in 0..total {
                 let hist: Vec<Delay> = (0..len).map(|r| if (code >> r) & 1 == 0 { Delay::Zero } else { Delay::Half }).collect();
-                let sc = Scn { interval, timeout, rounds: hist.clone(), prompt_tail: false, hung_tail: true };
+                let sc = Scn { interval, timeout, rounds: hist.clone(), prompt_tail: false, hung_tail: true, peer_pings: false };
                 let label = format!("I={interval}ms T={}ms history={hist:?} then the peer hangs (reads nothing), send side congested", if timeout == 0 { "NONE".to_string() } else { timeout.to_string() });
                 cases.push(Case { try_unbounded: false, max_k: u32::MAX, label, exec: Box::new(move |r| exec(&sc, r)) });
+            }
+        }
+    }
+    // the peer keeps sending Pings of its own, also after it has stopped answering ours
+    for &(interval, timeout) in &cfgs2 {
+        if interval == 0 {
+            continue;
+        }
+        let pr = if thorough { 3 } else { 2 };
+        for len in 0..=pr {
+            let total = 2usize.pow(len as u32);
+            for code in 0..total {
+                let hist: Vec<Delay> = (0..len).map(|r| if (code >> r) & 1 == 0 { Delay::Zero } else { Delay::Half }).collect();
+                for prompt_tail in [false, true] {
+                    let sc = Scn { interval, timeout, rounds: hist.clone(), prompt_tail, hung_tail: false, peer_pings: true };
+                    let label = format!("I={interval}ms T={}ms history={hist:?} then {}; the peer sends its own Ping every interval throughout", if timeout == 0 { "NONE".to_string() } else { timeout.to_string() }, if prompt_tail { "prompt" } else { "silent" });
+                    cases.push(Case { try_unbounded: false, max_k: u32::MAX, label, exec: Box::new(move |r| exec(&sc, r)) });
+                }
             }
         }
     }
@@ -378,11 +409,11 @@ pub fn run(args: &Args) -> Report {
         fault: 0,
         total_wall: Duration::from_secs(if thorough { 1500 } else { 50 }),
         max_execs_per_case: 5_000,
-        required_witnesses: W_TIMEOUT | W_SURVIVED | W_PING_SEEN | W_DISABLED | W_CLAMPED | W_RESOLVED_AFTER_TIMEOUT | W_LATE_PONG | W_HUNG,
+        required_witnesses: W_TIMEOUT | W_SURVIVED | W_PING_SEEN | W_DISABLED | W_CLAMPED | W_RESOLVED_AFTER_TIMEOUT | W_LATE_PONG | W_HUNG | W_PEER_PINGS,
         adaptive: thorough,
-        witness_names: &[("timeout_detected", W_TIMEOUT), ("survived_to_horizon", W_SURVIVED), ("ping_seen", W_PING_SEEN), ("keepalive_disabled_case", W_DISABLED), ("timeout_clamped_to_interval", W_CLAMPED), ("operations_resolved_after_timeout", W_RESOLVED_AFTER_TIMEOUT), ("late_pong_tolerated", W_LATE_PONG), ("peer_hung_with_congested_send_side", W_HUNG)],
+        witness_names: &[("timeout_detected", W_TIMEOUT), ("survived_to_horizon", W_SURVIVED), ("ping_seen", W_PING_SEEN), ("keepalive_disabled_case", W_DISABLED), ("timeout_clamped_to_interval", W_CLAMPED), ("operations_resolved_after_timeout", W_RESOLVED_AFTER_TIMEOUT), ("late_pong_tolerated", W_LATE_PONG), ("peer_hung_with_congested_send_side", W_HUNG), ("peer_sends_its_own_pings", W_PEER_PINGS)],
     };
-    rep.rule = "psim in virtual time: one real endpoint whose Options come from the public builders, its real task future polled by hand inside a paused-clock tokio runtime (timers fire by auto-advance, TimestampProvider reads the same clock), a raw peer answering Ping k after a scripted delay; EVERY history of R delays over {0, T/2, T, T+10 ms, never} followed by a silent or prompt tail (plus: after every history of <= 2 (thorough: R) in-time answers the peer HANGS, i.e. stops reading as well, while the application sends a burst into a transport of capacity 2, so the send side is congested when the timeout is due), for every (I,T) pair incl. T<I (clamped), T=I, T=NONE and I=NONE; timer-vs-pong races at equal instants are scheduling choices (<= k deviations). Oracle: Ping k leaves at k*I; disabled => no Ping, no end; the task ends only with KeepaliveTimeout, at a time t with last_pong+T_eff <= t <= last_pong+T_eff+I; never when every Ping was answered within T; no silent gap > T_eff+I survives; after the timeout the pending accept/get_datagram resolve although the transport stays silent".into();
+    rep.rule = "psim in virtual time: one real endpoint whose Options come from the public builders, its real task future polled by hand inside a paused-clock tokio runtime (timers fire by auto-advance, TimestampProvider reads the same clock), a raw peer answering Ping k after a scripted delay; EVERY history of R delays over {0, T/2, T, T+10 ms, never} followed by a silent or prompt tail (plus: after every history of <= 2 (thorough: R) in-time answers the peer HANGS, i.e. stops reading as well, while the application sends a burst into a transport of capacity 2, so the send side is congested when the timeout is due; plus: the peer sends Pings of its own every interval throughout, also while it does not answer ours), for every (I,T) pair incl. T<I (clamped), T=I, T=NONE and I=NONE; timer-vs-pong races at equal instants are scheduling choices (<= k deviations). Oracle: Ping k leaves at k*I; disabled => no Ping, no end; the task ends only with KeepaliveTimeout, at a time t with last_pong+T_eff <= t <= last_pong+T_eff+I; never when every Ping was answered within T; no silent gap > T_eff+I survives; after the timeout the pending accept/get_datagram resolve although the transport stays silent".into();
     rep.assumptions = vec!["tolerance 3 ms for tokio's millisecond timer rounding".into(), "the interval is set before the timeout (documented builder order)".into()];
     run_cases(args, &mut rep, cases, &plan);
     rep
